@@ -209,9 +209,17 @@ class AstToSqlVisitor(visitor.NodeVisitor):
 
         # In case of a subexpression, wrap it in parentheses.
         # NOT binds less tightly than a comparison in SQL, so it needs them too.
+        # contains/startswith/endswith are rendered as LIKE predicates, which bind
+        # like a comparison, so they need them as well.
         def is_subexpression(operand: ast._Node) -> bool:
-            return isinstance(operand, (ast.BoolOp, ast.Compare)) or (
-                isinstance(operand, ast.UnaryOp) and isinstance(operand.op, ast.Not)
+            return (
+                isinstance(operand, (ast.BoolOp, ast.Compare))
+                or (isinstance(operand, ast.UnaryOp) and isinstance(operand.op, ast.Not))
+                or (
+                    isinstance(operand, ast.Call)
+                    and operand.func.name.lower()
+                    in ("contains", "startswith", "endswith")
+                )
             )
 
         if is_subexpression(node.left):
